@@ -419,10 +419,19 @@ static void run_cmd(const sim::Cmd &c, sim::Out &out)
       (enabled_for(prop, v) ? viols : others).push_back(v);
     }
   }
-  sim::layout::stop();
   cnt.inc("flaws", static_cast<long>(l->flaws.size()));
   cnt.inc("resolvers", l->n_resolvers);
   cnt.inc("causal_links", l->n_links);
+  if (status == "OK" && viols.empty() && c.num("destroy", prop == "C18" ? 1 : 0) != 0)
+  { // C18: tearing the solver down must not crash either (the allocator is ours: a block freed twice, or a free of something
+    // it never handed out, stops the run; the sanitizer configuration sees use-after-free as well)
+    log.ev("destroy");
+    out.flush();
+    delete l;
+    delete s;
+    cnt.inc("solvers_destroyed");
+  }
+  sim::layout::stop();
   cnt.inc("units", static_cast<long>(b.units.size()));
   cnt.inc("quarantined_statements", b.quarantined);
   if (!viols.empty())
